@@ -164,7 +164,12 @@ pub fn discover_packages_with_layout(
     let mut packages = HashMap::new();
     let mut discovery_order = Vec::new();
     let mut package_dirs = HashMap::new();
+    // The work list decides `discovery_order` and with it the order of all emitted code, so it
+    // must not inherit the iteration order of the import *sets*: keep it sorted (popped from the
+    // back, i.e. packages are visited in alphabetical order).
     let mut queue: Vec<String> = entry_package.imports.iter().cloned().collect();
+    queue.sort();
+    queue.reverse();
     let mut loaded = HashSet::new();
 
     loaded.insert(entry_name.clone());
@@ -187,7 +192,10 @@ pub fn discover_packages_with_layout(
                 package_name
             )));
         }
-        queue.extend(package.imports.iter().cloned());
+        let mut imports: Vec<String> = package.imports.iter().cloned().collect();
+        imports.sort();
+        imports.reverse();
+        queue.extend(imports);
         loaded.insert(declared_name.clone());
         packages.insert(declared_name.clone(), package);
         discovery_order.push(declared_name.clone());
